@@ -522,6 +522,44 @@ static void handler(vh::Reader& r, vh::Out& o)
 		put_vec(o, *R * u);
 		put_vec(o, Spherical_Coordinates(rr, th, ph + alpha, *axis));
 	}
+	else if(op == "rotchain")
+	{
+		// the product of any number of rotations, built with the library's own Identity_Matrix and Matrix product,
+		// the sum of the angles, and the rotation by that sum about the first axis
+		long dim = r.integer(), n = r.integer();
+		if(dim != 2 && dim != 3)
+		{
+			o.w("HARNESSERR bad_dim");
+			return;
+		}
+		Matrix P   = Identity_Matrix((unsigned int) dim);
+		double sum = 0.0;
+		VecP first;
+		for(long k = 0; k < n; k++)
+		{
+			double a = r.num();
+			Vector ax(r.list());
+			if(!first)
+				first.reset(new Vector(ax));
+			P = P * Rotation_Matrix(a, (int) dim, ax);
+			sum += a;
+		}
+		put_mat(o, P);
+		o.f(sum);
+		if(first)
+			put_mat(o, Rotation_Matrix(sum, (int) dim, *first));
+	}
+	else if(op == "rotangle")
+	{
+		// "turns vectors perpendicular to it by alpha", measured with the library's own Angle
+		double alpha = r.num();
+		VecP axis = rd_vec3(r), v = rd_vec3(r);
+		Matrix R = Rotation_Matrix(alpha, 3, *axis);
+		Vector w = R * *v;
+		put_vec(o, w);
+		o.f(Angle(*v, w));
+		o.f(Angle(w, *v));
+	}
 	else if(op == "angle")
 	{
 		VecP a = rd_vec(r), b = rd_vec(r);
